@@ -68,6 +68,9 @@ func VfQueryPeer() {
 			}
 			return resp, nil
 		}}
+	// the lookup may run with the IP diversity limit configured (the response here
+	// names peers without addresses, which the diversity filter lets through)
+	q.maxPeersPerIPGroup = 3 * vfChoose("ipDiversityLimitConfigured", 2)
 	ch := make(chan *queryUpdate, 1)
 	q.waitGroup.Add(1)
 	wasMember := d.routingTable.Find(p) != ""
